@@ -27,8 +27,9 @@ import re
 from ..facts import extract_split, units_matching, Program, AnalysisBroken, sx_find, sx_str
 from ..match import (ev_write, call_args, call_obj, field_of, var_of, known_edges, only_via, expand_locals)
 from .c09 import _block_path
+from .c13 import frames
 
-UNITS = r"/Simbody/src/Assembler\.cpp$"
+UNITS = r"/Simbody/src/(Assembler|AssemblyCondition_Markers|AssemblyCondition_OrientationSensors)\.cpp$"
 HDR = r"/simbody/internal/Assembler\.h$"
 A = "SimTK::Assembler"
 AS = A + "::AssemblerSystem"
@@ -639,6 +640,8 @@ def run(chk, tier, overlays=()):
     chk.rule("ERRLIST", "infinite-weight conditions with error terms are all listed in `errors`, constraintFunc evaluates every listed condition into consecutive slots, the error norm is "
              "the max-abs / RMS of that vector, the measuring helpers evaluate the current free q's, and the optimizer gets the same tolerance")
     errlist(chk, P)
+    # the assembly goals' values and gradients: frame adjacency of every rotation / transform product with parseable monogram names
+    frames(chk, P, re.compile(r"/Simbody/src/AssemblyCondition_(Markers|OrientationSensors)\.cpp$"), {}, floor=4)
     chk.floor("TOL", 14)
     chk.floor("LOCKED", 18)
     chk.floor("BOUNDS", 7)
